@@ -81,6 +81,7 @@ def check(prog: Program, tier: str) -> Result:
     _r15_4(prog, res, ev)
     _r15_5(prog, res, ev)
     _r15_6(prog, res, ev)
+    _r15_7(prog, res, ev)
     res.floors.update({"R15.1": 23, "R15.2": 18, "R15.3": 2, "R15.4": 10, "R15.5": 2, "R15.6": 2})
     res.analysed.update({"evaluator_functions": [f.fq for f in ev.members], "external_call_sites": len(ev.call_sites())})
     return res
@@ -335,6 +336,38 @@ def _r15_5(prog: Program, res: Result, ev: Evaluator) -> None:
                 res.ok("R15.5", f.loc(n), f.fq, norm(n), "`not` of the evaluated operand")
 
 
+# ------------------------------------------------------------------------------------------------ R15.7
+def _r15_7(prog: Program, res: Result, ev: Evaluator) -> None:
+    """A call `len(x)` in the analysed program means the builtin only if the program does not rebind `len`.  Where the
+    evaluator turns a callee NAME into the builtin of that name, the path must carry a test of that name against the
+    names the analysed module binds (a parameter / collection of defined or shadowed names) - the whitelist of pure
+    builtins alone says nothing about the program at hand."""
+    for f, c, kind in ev.primitive_sites():
+        if kind != "builtin call":
+            continue
+        name_expr = c.func.args[1] if isinstance(c.func, ast.Call) and len(c.func.args) > 1 else None
+        if name_expr is None:
+            continue
+        pa = PathAnalysis(prog, f)
+        worlds = pa.worlds_at(c)
+        subject = norm(name_expr)
+        ok = bool(worlds)
+        for w in worlds:
+            has = False
+            for fct in w.facts:
+                if fct[0] != "lit":
+                    continue
+                txt = _re_mod.sub(r"#\w+", "", fct[1])
+                # `<name> not in <scope names>` / `<name> in <scope names>` false, where the collection is not a constants.* table
+                if subject in txt and (" in " in txt or txt.startswith("in(")) and "constants." not in txt and "builtins" not in txt:
+                    has = has or (not fct[2])
+            ok = ok and has
+        res.decide(ok, "R15.7", f.loc(c), f.fq, f"{kind}: {short(c, 70)}",
+                   "reached only for names the analysed module does not rebind" if ok else
+                   f"`{subject}` is resolved to the builtin without any test against the names the analysed module binds: with `def len(x): return 5` "
+                   "in the module, `len([1]) == 1` is still folded to True")
+
+
 # ------------------------------------------------------------------------------------------------ R15.6
 def _r15_6(prog: Program, res: Result, ev: Evaluator) -> None:
     """A call is evaluated from its positional arguments only if it is known to have no keyword arguments
@@ -369,6 +402,10 @@ def _r15_6(prog: Program, res: Result, ev: Evaluator) -> None:
 from ..selftest import Variant  # noqa: E402
 
 VARIANTS = [
+    Variant("builtin-call-tested-against-rebound-names", "SILENT", "core",
+            "        if isinstance(node.func, ast.Name) and node.func.id in constants.PURE_BUILTIN_FUNCTIONS:\n            args = [literal_value(arg) for arg in node.args]",
+            "        if isinstance(node.func, ast.Name) and node.func.id in constants.PURE_BUILTIN_FUNCTIONS and node.func.id not in REBOUND_NAMES:\n            args = [literal_value(arg) for arg in node.args]",
+            extra=[("core", "DEFAULT_IGNORE = frozenset(", "REBOUND_NAMES = set()\nDEFAULT_IGNORE = frozenset(")]),
     Variant("is-blocking-calls-the-raw-evaluator", "FIRE", "core",
             "            branch = node.body if literal_value(node.test) else node.orelse", "            branch = node.body if _literal_value(node.test) else node.orelse", "R15.2"),
     Variant("table-lt-is-le", "FIRE", "constants", "    ast.Lt: operator.lt,\n", "    ast.Lt: operator.le,\n", "R15.1"),
